@@ -108,7 +108,7 @@ impl<'a> Docs<'a> {
 
     /// contents of one file / stdin, by class
     pub fn content(&mut self) -> Bytes {
-        let w = [22u32, 34, 9, 3, 3, 5, 4, 4, 3, 4, 5, 4, 5, 3, 3];
+        let w = [22u32, 34, 9, 3, 3, 5, 4, 4, 3, 4, 5, 4, 5, 3, 3, 4];
         match self.rng.weighted(&w) {
             0 => self.formatted(self.main_cfg).into(),
             1 => self.fresh_doc(0.7).into(),
@@ -196,6 +196,42 @@ impl<'a> Docs<'a> {
                 let d = self.fresh_doc(0.5);
                 let e = gen::erroneous_variant(&d, &mut self.rng);
                 format!("{}{}{}", self.rng.pick(&["", "\n\n", "  ", "\t\n"]), e, self.rng.pick(&["", "\n\n\n", "   ", " \n \n", "\r\n"])).into()
+            }
+            15 => {
+                // exact sizes at and around buffer boundaries, with a 4-byte character straddling
+                // the boundary: padding lives in a trailing line comment, so the class of the
+                // document (formatted / not) is whatever the library says
+                let b = *self.rng.pick(&[512usize, 1024, 4096, 8192, 16384, 32768, 65536, 131072]);
+                let b = b.min(self.params.max_large.max(8192));
+                let head = if self.rng.chance(0.5) { self.formatted(self.main_cfg) } else { self.fresh_doc(0.5) };
+                let mut s = head;
+                while s.len() + 64 > b && s.len() > 200 {
+                    // too long for this boundary: keep only the first lines
+                    let mut half = s.len() / 2;
+                    while !s.is_char_boundary(half) {
+                        half -= 1;
+                    }
+                    let cut = s[..half].rfind('\n').map(|i| i + 1).unwrap_or(0);
+                    s.truncate(cut);
+                }
+                let k = self.rng.range(0, 3); // how many bytes of the 4-byte char lie before the boundary
+                let delta: i64 = *self.rng.pick(&[-1i64, 0, 0, 1, 2]); // final size relative to the boundary
+                if s.len() + 16 < b {
+                    s.push_str("// ");
+                    // the emoji starts at offset b - k
+                    while s.len() < b - k {
+                        s.push('p');
+                    }
+                    if k > 0 {
+                        s.push('\u{1f600}');
+                    }
+                    let want = (b as i64 + delta).max(s.len() as i64 + 1) as usize;
+                    while s.len() + 1 < want {
+                        s.push('q');
+                    }
+                    s.push('\n');
+                }
+                s.into()
             }
             _ => {
                 // (class 11) unformatted but tiny
@@ -421,12 +457,17 @@ fn gen_paths(rng: &mut Rng, tree: &Tree, cwd: &str, mode: Mode) -> Vec<String> {
     let files = files_of(tree);
     let links: Vec<String> = tree.iter().filter(|(_, n)| matches!(n, Node::Symlink(_))).map(|(k, _)| k.clone()).collect();
     let dirs = dirs_of(tree);
-    let n = match rng.below(12) {
+    let mut n = match rng.below(12) {
         0..=3 => 1,
         4..=7 => rng.range(2, 3),
         8..=10 => rng.range(3, 6),
         _ => rng.range(6, 14),
     };
+    if files.len() >= 17 && rng.chance(0.5) {
+        // list lengths at and around powers of two
+        n = *rng.pick(&[15usize, 16, 17, 31, 32, 33, 63, 64, 65, 100, 127, 128, 129, 255, 256, 257]);
+        n = n.min(files.len() * 2);
+    }
     let mut out: Vec<String> = Vec::new();
     for _ in 0..n {
         let r = rng.below(100);
@@ -618,12 +659,16 @@ pub fn gen_case(seed: u64, profile: &str, params: &GenParams, oracle: &mut Oracl
                 let mut q = pv.clone();
                 q.shim_seed = inv.shim_seed;
                 q.readdir = inv.readdir.clone();
-                if pattern >= 3 {
+                if pattern == 4 {
                     // same files / directory, other style options: state kept from the previous
                     // invocation (a cache, a stamp file) must not leak into this one
                     q.style = gen_cfg(&mut rng);
                 }
-                q.shape = match (&pv.shape, i % 2) {
+                q.shape = if pattern == 3 {
+                    // the identical invocation again (a second run is a no-op; a third one too)
+                    pv.shape.clone()
+                } else {
+                    match (&pv.shape, i % 2) {
                     (Shape::Files { paths, mode }, 1) => Shape::Files {
                         mode: match mode {
                             Mode::Check => Mode::Inplace,
@@ -634,6 +679,7 @@ pub fn gen_case(seed: u64, profile: &str, params: &GenParams, oracle: &mut Oracl
                     },
                     (Shape::FormatAll { check, dir, inplace }, _) => Shape::FormatAll { check: if pattern < 3 { !*check } else { *check }, dir: dir.clone(), inplace: *inplace },
                     (s, _) => s.clone(),
+                    }
                 };
                 // an -i list must not name symlinks (DESIGN 4.3)
                 if let Shape::Files { mode: Mode::Inplace, paths } = &q.shape {
